@@ -222,7 +222,6 @@ impl<'a> Pr<'a> {
     fn lvalue(&mut self, l: &LValue) -> String {
         let mut s = self.ident(&l.name);
         if !l.index.is_empty() {
-            s.push_str(&self.nsp());
             s.push('(');
             for (i, e) in l.index.iter().enumerate() {
                 if i > 0 {
@@ -763,7 +762,9 @@ impl<'a> Pr<'a> {
             simple => {
                 let t = self.simple_text(simple);
                 let joinable = is_simple(simple);
-                self.line_inner(Some(path), t, joinable, false, joinable);
+                // `Name:` at the start of a line is a label: nothing is joined with a colon after an argument-less call
+                let next_joinable = joinable && !matches!(simple, Stmt::CallSub(_, a) if a.is_empty());
+                self.line_inner(Some(path), t, next_joinable, false, joinable);
             }
         }
         if !is_simple(s) {
